@@ -346,6 +346,23 @@ struct CompressedPGMIndex<K, Epsilon, EpsilonRecursive, Floating>::CompressedLev
             slopes_map.back() = slopes_table[*std::prev(last_slope)];
     }
 
+    // sel1 points at compressed_intercepts: copies must be re-targeted to their own bit vector
+    CompressedLevel(const CompressedLevel &other)
+        : keys(other.keys),
+          slopes_map(other.slopes_map),
+          intercept_offset(other.intercept_offset),
+          compressed_intercepts(other.compressed_intercepts),
+          sel1(&compressed_intercepts) {}
+
+    CompressedLevel &operator=(const CompressedLevel &other) {
+        keys = other.keys;
+        slopes_map = other.slopes_map;
+        intercept_offset = other.intercept_offset;
+        compressed_intercepts = other.compressed_intercepts;
+        sel1.set_vector(&compressed_intercepts);
+        return *this;
+    }
+
     inline size_t operator()(const std::vector<Floating> &slopes, size_t i, K k) const {
         return internal_saturated_position(get_slope(slopes, i) * (k - keys[i]), get_intercept(i));
     }
